@@ -1,4 +1,4 @@
-(* GENERATED on every run by tools/rs2coq_locks.py (rs2coq part 19) from the Rust text under /tmp/seedrepo_28832/src
+(* GENERATED on every run by tools/rs2coq_locks.py (rs2coq part 19) from the Rust text under /repo/src
    (every src/**/*.rs is lexed and scanned; the bodies below are parsed); cfg resolved for the features !amortized, cached, !explain, !glob, incremental, !ip, !logging, !runtime-async-std, runtime-tokio, watcher.
    Do not edit.  gen_lk_F : lk is the lock skeleton of F (Gen/LocksRt.v says what it means); gen_locks_F k is the
    sequence of role-manager instructions F issues, k = number of guarded role-manager calls (links added / removed,
